@@ -15,6 +15,41 @@ from .common import LABELS, Scenario, ask, gen_batch, is_nan, new_mab, pyval, re
 from .c03 import fresh_lp, results_equal
 
 
+def wide_hash(env, B, twin=False):
+    """the real _LSHNearest.get_context_hash on two rows and B hyperplanes: the projections are symbolic reals (contexts =
+    arbitrary reals, plane = identity, so that projection i is context entry i); the bits stay If-terms, no forks.  The hash
+    must be the base-2 value of the sign pattern, hence two rows collide iff all B signs agree - for every B, not only the
+    one or two bits of the neighbourhood scenarios."""
+    import numpy as np
+    import z3
+    from sx.core import SB, lift
+    from .common import M
+    cls = M()['approximate']._LSHNearest
+    # numpy's object-dtype comparison forks on every sign: only the lowest, the middle and the highest projection of each
+    # row are symbolic, the others are the constants +1 / -1 (row 0: all set, row 1: alternating)
+    free = sorted({0, B // 2, B - 1})
+    sym = env.reals('c', (2, len(free)))
+    c = np.empty((2, B), dtype=object if env.sym else float)
+    for r in range(2):
+        for i in range(B):
+            c[r, i] = sym[r][free.index(i)] if i in free else (1.0 if (r == 0 or i % 2 == 0) else -1.0)
+    plane = np.identity(B, dtype=int).astype(object) if env.sym else np.identity(B)
+    h = cls.get_context_hash(c, plane)
+    env.ob('wide.shape', len(h) == 2)
+    bits = [[c[r][i] > 0 for i in range(B)] for r in range(2)]
+    for r in range(2):
+        want = 0
+        for i in range(B):
+            want = want + env.ite(bits[r][i], 2 ** i, 0)
+        env.ob('wide.value.row%d' % r, env.eq(h[r], want))
+    agree = env.and_(*[env.or_(env.and_(bits[0][i], bits[1][i]), env.and_(env.not_(bits[0][i]), env.not_(bits[1][i])))
+                       for i in range(B)])
+    same = env.eq(h[0], h[1])
+    env.ob('wide.collide_iff_all_signs_agree', env.and_(env.implies(agree, same), env.implies(same, agree)))
+    if twin:
+        env.ob('twin.false', False)
+
+
 def lsh(env, lp, B, T, N, partial, d, query='free', A=2, n_jobs=1, twin=False):
     arms = list(LABELS['int'][:A])
     n = N + partial
@@ -99,8 +134,9 @@ BOUNDS = {
                   policies=['EpsilonGreedy(0)', 'UCB1']),
     'thorough': dict(stored_rows='3 + 1', features='1-2', tables='<= 2', bits='<= 2', policies='+ Thompson, LinUCB'),
 }
-OUTSIDE = ['floats are reals: a projection that is exactly zero is a real-number zero', 'n_dimensions > 2 (the hash is a sum '
-           'of bit * 2**i, covered for i < 2)']
+OUTSIDE = ['floats are reals: a projection that is exactly zero is a real-number zero', 'neighbourhood scenarios use n_dimensions <= 2; the hash '
+           'function itself (sum of bit * 2**i) is covered separately for n_dimensions up to 40 (quick) / 53 (thorough); '
+           'beyond 53 bits the float64 accumulator is no longer exact, which a real-number model cannot see']
 ASSUMPTIONS = ['hyperplanes = arbitrary reals (uninterpreted standard_normal draws)', 'joblib stub: hashing tasks are static '
                'functions and run in the caller']
 
@@ -122,6 +158,10 @@ def scenarios(tier):
                                     dict(lp=lp, B=B, T=T, N=N, partial=1, d=d, query=query),
                                     weight=2 ** (B * T * (N + 2)) * 4, max_paths=100000, shards=4 if B * T > 1 else 2,
                                     bounds=dict(lp=lp, bits=B, tables=T, d=d, rows=N + 1, query=query)))
+    for B in ([3, 8, 31, 32, 33, 40] if q else [3, 8, 16, 31, 32, 33, 40, 48, 53]):
+        out.append(Scenario('hash.B%d' % B, wide_hash, dict(B=B), weight=10 + B, max_paths=400, setup=dict(no_tv=True),
+                            bounds=dict(n_dimensions=B, rows=2, projections='lowest, middle and highest projection of each row '
+                                        'arbitrary reals, the others fixed to +1 / -1')))
     out.append(Scenario('ucb1.B1T1d1.free.njobs2', lsh, dict(lp='ucb1', B=1, T=1, N=2, partial=1, d=1, n_jobs=2),
                         setup=dict(par_other='proc'), weight=50, shards=2))
     out.append(Scenario('twin.ucb1', lsh, dict(lp='ucb1', B=1, T=1, N=1, partial=1, d=1, twin=True), twin=True))
